@@ -751,7 +751,7 @@ fn explore(ctx: &Ctx) {
     let pow2 = pow2_neighbours(64);
 
     // ---- S
-    let (m_max, l_max) = ctx.pick((40u64, 7usize), (130, 9));
+    let (m_max, l_max) = ctx.pick((64u64, 8usize), (130, 9));
     let elems: Vec<H256> = (0..66).map(synth_elem).collect();
     let folds: Vec<Vec<Vec<H256>>> = SYNTH_DATA
         .iter()
@@ -770,7 +770,7 @@ fn explore(ctx: &Ctx) {
     );
 
     // ---- A
-    let (n_max, n_prod_all, n_prod_s0) = ctx.pick((64u64, 48u64, 48u64), (300, 64, 128));
+    let (n_max, n_prod_all, n_prod_s0) = ctx.pick((96u64, 56u64, 64u64), (300, 64, 128));
     let units = n_max * 3;
     let mut done_n = 0u64;
     // in slices so that a time cap is reported with the bound actually completed
